@@ -124,6 +124,16 @@ func genLine(tp *kernel.Tape) string {
 	} else if tp.Bool(1, 8) {
 		b.WriteString(pick(tp, seps))
 	}
+	if tp.Bool(1, 12) {
+		// White space that is not a hosts(5) field separator, at an edge of
+		// the line (what is well formed is still Record.UnmarshalText's
+		// verdict on exactly these bytes).
+		odd := []string{"\f", "\v", "\u00a0", "\u0085", "\r", "\u2003"}[tp.Choose(6)]
+		if tp.Bool(1, 2) {
+			return odd + b.String()
+		}
+		b.WriteString(odd)
+	}
 
 	return b.String()
 }
@@ -238,6 +248,15 @@ func runParse(c *ctx) {
 	tp, rc := c.rc.Tape, c.rc
 	nLines := tp.Range(0, 8)
 	var text []byte
+	large := false
+	if tp.Bool(1, 8000) {
+		// A large source (1-18 MiB) in front of the drawn lines.
+		large = true
+		rc.Stats.Probe("large-source")
+		target := tp.Range(1, 18) << 20
+		line := []byte("10.1.2.3 bulk.example.org another.example.org\n")
+		text = bytes.Repeat(line, target/len(line)+1)
+	}
 	crlf := tp.Choose(3) // 0 LF, 1 CRLF, 2 mixed
 	for i := 0; i < nLines; i++ {
 		text = append(text, genLine(tp)...)
@@ -271,6 +290,11 @@ func runParse(c *ctx) {
 		buf = make([]byte, 0, 64)
 	}
 	sr := kernel.NewSimReader(tp, rc.Stats, text, withErr)
+	if large {
+		// Keep a large run short: big chunks, no empty reads.
+		sr.MaxChunk = max(sr.MaxChunk, 64<<10)
+		sr.ZeroReads = false
+	}
 	var src interface {
 		Read([]byte) (int, error)
 	} = sr
@@ -471,7 +495,7 @@ func (m *storageModel) add(addr netip.Addr, names []string) {
 }
 
 var (
-	stAddrs = []string{"1.2.3.4", "::1", "fe80::1%eth0", "fe80::1%eth1", "::ffff:1.2.3.4", "fe80::1"}
+	stAddrs = []string{"1.2.3.4", "::1", "fe80::1%eth0", "fe80::1%eth1", "::ffff:1.2.3.4", "fe80::1", "0.0.0.0", "::"}
 	stNames = []string{"host", "Host", "HOST", "a.b", "A.B", "x", "X", "long.example.org", "почта.lan", "ПОЧТА.lan", "äöü.lan", "ÄÖÜ.lan"}
 )
 
